@@ -21,6 +21,8 @@
 package forwarder
 
 import (
+	"fmt"
+
 	errorsmod "cosmossdk.io/errors"
 
 	core "github.com/noble-assets/orbiter/v2/types/core"
@@ -40,12 +42,21 @@ func (g *GenesisState) Validate() error {
 		return core.ErrNilPointer.Wrap("forwarder genesis state")
 	}
 
+	// NOTE: repeated entries are rejected because the genesis initialization
+	// fails when an entry is already paused.
+	visitedProtocolIDs := make(map[core.ProtocolID]struct{})
 	for _, id := range g.PausedProtocolIds {
 		if err := id.Validate(); err != nil {
 			return errorsmod.Wrap(err, "invalid paused protocol ID")
 		}
+
+		if _, found := visitedProtocolIDs[id]; found {
+			return fmt.Errorf("repeated paused protocol ID: %s", id)
+		}
+		visitedProtocolIDs[id] = struct{}{}
 	}
 
+	visitedCrossChainIDs := make(map[string]struct{})
 	for _, id := range g.PausedCrossChainIds {
 		if id == nil {
 			return core.ErrNilPointer.Wrap("invalid paused cross-chain ID")
@@ -54,6 +65,11 @@ func (g *GenesisState) Validate() error {
 		if err := id.Validate(); err != nil {
 			return errorsmod.Wrapf(err, "invalid paused cross-chain ID %v", id)
 		}
+
+		if _, found := visitedCrossChainIDs[id.ID()]; found {
+			return fmt.Errorf("repeated paused cross-chain ID: %s", id.ID())
+		}
+		visitedCrossChainIDs[id.ID()] = struct{}{}
 	}
 
 	return nil
